@@ -253,6 +253,8 @@ func expectedCells(sp spec) int {
 		return failmodCells(sp)
 	case "ws":
 		return len(wsCells(sp))
+	case "storm":
+		return stormProbes(sp)
 	}
 	return 0
 }
@@ -542,6 +544,8 @@ func (x *exec) class() string {
 		return "stale-cache"
 	case x.c.Opt != "":
 		return "always-options"
+	case x.c.Part == "storm":
+		return "concurrent-writes"
 	}
 	return ""
 }
